@@ -272,4 +272,6 @@ def run(repo, tier):
     run_clone_pairs(repo, res, {m for m in repo.modules if m.startswith('photutils.aperture') and '.tests' not in m})
     from .common import run_no_cached_property
     run_no_cached_property(repo, res, {m for m in repo.modules if m.startswith('photutils.aperture')})
+    from .common import run_generic_pack
+    run_generic_pack(repo, res, PROP, MODS)
     return res
